@@ -141,9 +141,7 @@ class C13(Check):
         return 2500 if tier == "quick" else 150000
 
     def prepare(self, ctx):
-        result = ctx.run({"id": "startup", "files": {"/sim/main.lay": "nil;"}, "main": "/sim/main.lay",
-                          "gc": schedules.every("full")})
-        self.startup = result["fired"][0][0]
+        self.startup = self.startup_probe(ctx)
 
     def make(self, ctx, index):
         rng = core.rng_for(ctx.seed, "c13", index)
